@@ -20,12 +20,15 @@ package seccomp
 
 //@ type Program
 //@   field G GState
+//@   field R (Array (_ BitVec 32) Bool)
 
 // Assumption (listed in evidence): label counters stay below 2^62 — reaching it needs 2^62 NewLabel calls.
 //@ type Label
 //@   invariant @label_range 0 - 4611686018427387904 < self && self < 4611686018427387904
 
 //@ macro fresh(p) = freshAbove(p.G, p.nextLabel)
+// C05 builder invariant: instructions emitted so far are of permitted kinds, returns carry values recorded in the ghost set R
+//@ macro ok(p) = progOK(p.instructions, p.R)
 
 //@ func NewProgram() Program   properties C01 C03 C05 C06
 //@   ensures @empty len(result.instructions) == 0 && len(result.jumps) == 0 && result.nextLabel == 1
@@ -37,6 +40,7 @@ package seccomp
 //@   ensures @next result == old(p.nextLabel) + 1 && p.nextLabel == result
 //@   ensures @frame p.G == old(p.G) && p.instructions == old(p.instructions) && p.jumps == old(p.jumps) && p.labels == old(p.labels)
 //@   ensures @fresh fresh(old(p)) ==> fresh(p) && !g_taken(p.G)[result]
+//@   ensures @ok {C05} p.R == old(p.R)
 
 //@ func (p *Program) currentIndex() Index   properties C06
 //@   requires p != nil
@@ -50,6 +54,7 @@ package seccomp
 //@   ensures @insn len(p.instructions) == len(old(p.instructions)) + 1 && istype(p.instructions[len(p.instructions)-1], bpf.JumpIf)
 //@   ensures @frame p.nextLabel == old(p.nextLabel) && p.labels == old(p.labels)
 //@   ensures @fresh fresh(old(p)) && trueLabel <= old(p.nextLabel) && falseLabel <= old(p.nextLabel) ==> fresh(p)
+//@   ensures @ok {C05} p.R == old(p.R) && (ok(old(p)) && 0 <= cond && cond <= 7 ==> ok(p))
 
 //@ func (p *Program) SetLabel(label Label)   properties C01 C02 C03 C06
 //@   requires p != nil && nonnil(p.labels)
@@ -58,6 +63,7 @@ package seccomp
 //@   ensures @sem p.G == stepMark(old(p.G), label)
 //@   ensures @frame p.nextLabel == old(p.nextLabel) && p.instructions == old(p.instructions) && p.jumps == old(p.jumps) && nonnil(p.labels)
 //@   ensures @fresh fresh(old(p)) ==> fresh(p)
+//@   ensures @ok {C05} p.R == old(p.R)
 
 //@ func (p *Program) JmpIfTrue(cond bpf.JumpTest, val uint32, trueLabel Label)   properties C01 C02 C03 C05 C06
 //@   requires p != nil && nonnil(p.labels)
@@ -66,6 +72,7 @@ package seccomp
 //@   ensures @frame p.nextLabel == old(p.nextLabel) + 1 && nonnil(p.labels)
 //@   ensures @insn len(p.instructions) == len(old(p.instructions)) + 1
 //@   ensures @fresh fresh(old(p)) && trueLabel <= old(p.nextLabel) ==> fresh(p) && !g_taken(old(p.G))[old(p.nextLabel) + 1]
+//@   ensures @ok {C05} p.R == old(p.R) && (ok(old(p)) && 0 <= cond && cond <= 7 ==> ok(p))
 
 //@ func (p *Program) Ret(action Action)   properties C01 C05 C06
 //@   requires p != nil
@@ -75,6 +82,8 @@ package seccomp
 //@   ensures @insn len(p.instructions) == len(old(p.instructions)) + 1 && isRetOf(p.instructions[len(p.instructions)-1], enc(action))
 //@   ensures @frame p.nextLabel == old(p.nextLabel) && p.labels == old(p.labels) && p.jumps == old(p.jumps)
 //@   ensures @fresh fresh(old(p)) ==> fresh(p)
+//@   ghost p.R = addRet(p.R, unbox(p.instructions[len(p.instructions)-1], bpf.RetConstant).Val) at exit
+//@   ensures @ok {C05} p.R == addRet(old(p.R), enc(action)) && (ok(old(p)) ==> ok(p))
 
 //@ func (p *Program) LdHi(arg uint32)   properties C02 C05
 //@   requires p != nil
@@ -85,6 +94,7 @@ package seccomp
 //@   ensures @insn {C05} len(p.instructions) == len(old(p.instructions)) + 1 && validLoad(p.instructions[len(p.instructions)-1])
 //@   ensures @frame p.nextLabel == old(p.nextLabel) && p.labels == old(p.labels) && p.jumps == old(p.jumps)
 //@   ensures @fresh fresh(old(p)) ==> fresh(p)
+//@   ensures @ok {C05} p.R == old(p.R) && (ok(old(p)) ==> ok(p))
 
 //@ func (p *Program) ldSyscallNum()   properties C03 C05
 //@   requires p != nil
@@ -94,6 +104,7 @@ package seccomp
 //@   ensures @insn {C05} len(p.instructions) == len(old(p.instructions)) + 1 && validLoad(p.instructions[len(p.instructions)-1])
 //@   ensures @frame p.nextLabel == old(p.nextLabel) && p.labels == old(p.labels) && p.jumps == old(p.jumps)
 //@   ensures @fresh fresh(old(p)) ==> fresh(p)
+//@   ensures @ok {C05} p.R == old(p.R) && (ok(old(p)) ==> ok(p))
 
 //@ func (p *Program) LdLo(arg uint32)   properties C02 C05
 //@   requires p != nil
@@ -104,6 +115,7 @@ package seccomp
 //@   ensures @insn {C05} len(p.instructions) == len(old(p.instructions)) + 1 && validLoad(p.instructions[len(p.instructions)-1])
 //@   ensures @frame p.nextLabel == old(p.nextLabel) && p.labels == old(p.labels) && p.jumps == old(p.jumps)
 //@   ensures @fresh fresh(old(p)) ==> fresh(p)
+//@   ensures @ok {C05} p.R == old(p.R) && (ok(old(p)) ==> ok(p))
 
 // nativeEndian is assigned once by init() (not verified: unsafe); it is one of the two orders.
 //@ global nativeEndian immutable
@@ -161,6 +173,9 @@ package seccomp
 //@   ensures @dead !g_live(G0) ==> !g_live(p.G) && g_taken(p.G)[action] == g_taken(G0)[action]
 //@   ensures @done g_done(p.G) == g_done(G0) && g_rval(p.G) == g_rval(G0)
 //@   ensures @fresh fresh(p) && p.nextLabel >= N0 && nonnil(p.labels)
+//@   ensures @ok {C05} p.R == old(p.R) && (ok(old(p)) ==> ok(p))
+//@   let R0 = p.R
+//@   let ok0 = ok(p)
 //@   use anyListZero(s) at before loop 1
 //@   use semInstList(s, k, conditions) at loop 1 body
 //@   use allHoldZero(conditions) at before loop 2
@@ -170,6 +185,7 @@ package seccomp
 //@   use anyListStep(s, k, conditions, i) at after loop 2
 //@   loop 1 binder k
 //@     invariant @struct p != nil && nonnil(p.labels) && p.nextLabel >= N0 + 2 && nextSyscall == N0 + 1
+//@     invariant @ok {C05} p.R == R0 && (ok0 ==> ok(p))
 //@     invariant @fresh fresh(p)
 //@     invariant @done g_done(p.G) == g_done(G0) && g_rval(p.G) == g_rval(G0)
 //@     invariant @sem {C03} pre && sem ==> (g_taken(p.G)[action] == (g_taken(G0)[action] || (hdr && anyList(s, k))) && g_taken(p.G)[nextSyscall] == !hdr && g_live(p.G) == (hdr && !anyList(s, k)))
@@ -177,6 +193,7 @@ package seccomp
 //@     invariant @next_A {C03} pre && g_taken(p.G)[nextSyscall] ==> g_tA(p.G)[nextSyscall] == ev_nr(ev)
 //@   loop 2 binder i
 //@     invariant @struct p != nil && nonnil(p.labels) && p.nextLabel >= noMatch && noMatch >= N0 + 3
+//@     invariant @ok {C05} p.R == R0 && (ok0 ==> ok(p))
 //@     invariant @fresh fresh(p)
 //@     invariant @done g_done(p.G) == g_done(G0) && g_rval(p.G) == g_rval(G0)
 //@     invariant @live {C02 C03} pre && sem ==> g_live(p.G) == (hdr && !anyList(s, k) && allHoldUpTo(conditions, i) && i < len(conditions))
@@ -280,3 +297,166 @@ package seccomp
 //@     invariant @nwc {C07} len(problems) == 0 ==> nwcOKUpTo(g, k2)
 //@     invariant @entries_ok {C05 C07} entriesOK(syscalls)
 //@     invariant @lists_nonempty {C03} nwcNonEmptyUpTo(g, k2) ==> entriesListsNonEmpty(syscalls)
+
+// ---- group and policy assembly (C01 C03 C04 C05 C07) ----
+
+// Contract of label resolution (property C06). Body verified separately (layer A); C01-C05/C07 only use this contract.
+// A0 is the arbitrary accumulator with which the block is entered: p.G must have been started as Ginit(A0).
+//@ func (p *Program) Assemble() ([]bpf.Instruction, error)   properties C06
+//@   trusted
+//@   requires p != nil
+//@   modifies p
+//@   ensures @err result1 != nil ==> len(result0) == 0
+//@   ensures @sem result1 == nil ==> run(result0, 0, A0) == outG(old(p.G))
+//@   ensures @closed result1 == nil && ok(old(p)) ==> closed(result0) && retsInSet(result0, old(p.R))
+//@   ensures @len result1 == nil ==> len(result0) >= len(old(p.instructions)) && own(result0)
+
+// MT-3 (meta-theory, DESIGN.md 3.3): a closed block embedded in a program behaves like the block run on its own,
+// then continues behind it. Proved by induction on the execution (not by the SMT solver): trusted.
+//@ lemma MT3(prog []bpf.Instruction, s int, B []bpf.Instruction, A uint32)
+//@   trusted
+//@   ensures subBlock(prog, s, B) && closed(B) ==> run(prog, s, A) == thenRun(run(B, 0, A), prog, s + len(B))
+
+// the macro form used inside toSyscallsWithConditions and the named form used at group/policy level agree
+//@ lemma groupMatchesLink(g *SyscallGroup)
+//@   requires g != nil && g.arch != nil
+//@   ensures groupMatches(g) == groupMatchesF(*g.arch, *g)
+//@ lemma listsNonEmptyLink(g *SyscallGroup)
+//@   requires g != nil
+//@   ensures nwcNonEmptyUpTo(g, len(g.NamesWithCondtions)) == groupListsNonEmpty(*g)
+//@ lemma anyEntryStep(sc []SyscallWithConditions, k int, x SyscallWithConditions)
+//@   ensures 0 <= k && k < len(sc) && x == sc[k] ==> anyEntry(sc, k+1) == (anyEntry(sc, k) || (ev_nr(ev) == x.Num && (len(x.Conditions) == 0 || anyList(x, len(x.Conditions)))))
+//@ lemma entryValidInst(sc []SyscallWithConditions, k int, x SyscallWithConditions)
+//@   ensures 0 <= k && k < len(sc) && x == sc[k] && entriesOK(sc) ==> argsValid(x) && (entriesListsNonEmpty(sc) ==> semValid(x))
+//@ func (g *SyscallGroup) Assemble(defaultAction Action) ([]bpf.Instruction, error)   properties C01 C05 C07
+//@   requires g != nil && g.arch != nil
+//@   ensures @err {C07} result1 != nil ==> len(result0) == 0
+//@   ensures @sem {C01} result1 == nil && !(len(g.Names) == 0 && len(g.NamesWithCondtions) == 0) && groupListsNonEmpty(*g) && A0 == ev_nr(ev) ==> run(result0, 0, A0) == ite(groupMatchesF(*g.arch, *g), Ret(enc(g.Action)), Ret(enc(defaultAction)))
+//@   ensures @closed {C05} result1 == nil ==> closed(result0)
+
+//@ func (g *SyscallGroup) assemble(defaultAction Action, fallThrough bool) ([]bpf.Instruction, error)   properties C01 C03 C04 C05 C07
+//@   requires g != nil && g.arch != nil
+//@   let empty = len(g.Names) == 0 && len(g.NamesWithCondtions) == 0
+//@   ensures @empty empty ==> len(result0) == 0 && result1 == nil
+//@   ensures @err {C07} result1 != nil ==> len(result0) == 0
+//@   ensures @sem {C01 C03} result1 == nil && !empty && groupListsNonEmpty(*g) && A0 == ev_nr(ev) ==> run(result0, 0, A0) == ite(groupMatchesF(*g.arch, *g), Ret(enc(g.Action)), ite(fallThrough, Fall(ev_nr(ev)), Ret(enc(defaultAction))))
+//@   ensures @closed {C05} result1 == nil ==> closed(result0) && own(result0)
+//@   ensures @rets {C05} result1 == nil ==> retsInSet(result0, addRet(addRet(emptyRets, enc(g.Action)), ite(fallThrough, enc(g.Action), enc(defaultAction))))
+//@   ensures @c07_names {C07} result1 == nil && !empty ==> groupValidF(*g.arch, *g)
+//@   use groupValidLink(g) at entry
+//@   ghost p.G = Ginit(A0) at before call Program.NewLabel#1
+//@   ghost p.R = emptyRets at before call Program.NewLabel#1
+//@   use groupMatchesLink(g) at entry
+//@   use listsNonEmptyLink(g) at entry
+//@   use anyEntryZero(syscalls) at before loop 1
+//@   use entryValidInst(syscalls, k, syscall) at loop 1 body
+//@   use anyEntryStep(syscalls, k, syscall) at loop 1 body
+//@   loop 1 binder k
+//@     invariant @struct nonnil(p.labels) && action == 2 && p.nextLabel >= 2 && fresh(p) && !g_done(p.G)
+//@     invariant @ok {C05} p.R == emptyRets && ok(p)
+//@     invariant @sem {C01 C03} A0 == ev_nr(ev) && entriesListsNonEmpty(syscalls) ==> g_live(p.G) == !anyEntry(syscalls, k) && (g_live(p.G) ==> g_A(p.G) == ev_nr(ev)) && g_taken(p.G)[action] == anyEntry(syscalls, k)
+
+//@ lemma groupValidLink(g *SyscallGroup)
+//@   requires g != nil && g.arch != nil
+//@   ensures (namesKnownUpTo(g, len(g.Names)) && namesDistinctUpTo(g, len(g.Names)) && nwcOKUpTo(g, len(g.NamesWithCondtions))) == groupValidF(*g.arch, *g)
+
+//@ func (p *Policy) Validate() error   properties C07
+//@   requires p != nil
+//@   ensures @iff {C07} (result == nil) == (knownAction(p.DefaultAction) && len(p.Syscalls) > 0)
+
+// concatenation facts (instances of the quantified definition of append(a, b...))
+//@ macro isCat(R, P, Q) = (iscat(R, P, Q) && len(P) >= 0 && len(Q) >= 0)
+//@ lemma catSubBlocks(R []bpf.Instruction, P []bpf.Instruction, Q []bpf.Instruction)
+//@   ensures isCat(R, P, Q) ==> subBlock(R, 0, P) && subBlock(R, len(P), Q)
+//@ lemma catClosed(R []bpf.Instruction, P []bpf.Instruction, Q []bpf.Instruction)
+//@   ensures isCat(R, P, Q) && closed(P) && closed(Q) ==> closed(R)
+//@ lemma catRetsAct(R []bpf.Instruction, P []bpf.Instruction, Q []bpf.Instruction, gs []SyscallGroup, k int, a uint32)
+//@   ensures isCat(R, P, Q) && retsActUpTo(P, gs, k) && retsInSet(Q, addRet(addRet(emptyRets, a), a)) && a == enc(gs[k].Action) && k >= 0 ==> retsActUpTo(R, gs, k+1)
+//@ lemma catRetsActEmpty(P []bpf.Instruction, gs []SyscallGroup, k int)
+//@   ensures retsActUpTo(P, gs, k) && k >= 0 ==> retsActUpTo(P, gs, k+1)
+//@ lemma polRelStep(ai arch.Info, gs []SyscallGroup, k int, o Outcome, o2 Outcome)
+//@   opaque groupMatchesN
+//@   ensures 0 <= k && k < len(gs) && polRel(ai, gs, k, o) && o2 == ite(is_Ret(o), o, ite(groupMatchesF(ai, gs[k]), Ret(enc(gs[k].Action)), Fall(ev_nr(ev)))) ==> polRel(ai, gs, k+1, o2)
+//@ lemma polRelNoMatch(ai arch.Info, gs []SyscallGroup, k int, o Outcome)
+//@   opaque groupMatchesN
+//@   ensures 0 <= k && k < len(gs) && polRel(ai, gs, k, o) && !groupMatchesF(ai, gs[k]) ==> polRel(ai, gs, k+1, o)
+//@ lemma emptyNoMatch(ai arch.Info, g SyscallGroup)
+//@   ensures len(g.Names) == 0 && len(g.NamesWithCondtions) == 0 ==> !groupMatchesF(ai, g)
+//@ lemma polRelZero(ai arch.Info, gs []SyscallGroup)
+//@   ensures polRel(ai, gs, 0, Fall(ev_nr(ev)))
+//@ lemma listsNonEmptyInst(gs []SyscallGroup, k int)
+//@   ensures policyListsNonEmpty(gs) && 0 <= k && k < len(gs) ==> groupListsNonEmpty(gs[k])
+
+//@ lemma emptyValid(ai arch.Info, g SyscallGroup)
+//@   ensures len(g.Names) == 0 && len(g.NamesWithCondtions) == 0 ==> groupValidF(ai, g)
+//@ lemma polRelFinal(ai arch.Info, dflt uint32, gs []SyscallGroup, o Outcome, o2 Outcome)
+//@   opaque groupMatchesN
+//@   ensures polRel(ai, gs, len(gs), o) && o2 == ite(is_Ret(o), o, Ret(enc(dflt))) ==> polDone(ai, dflt, gs, o2)
+
+//@ func (p *Policy) Assemble() ([]bpf.Instruction, error)   properties C01 C03 C04 C05 C07 C13
+//@   opaque groupValidN polDone
+//@   requires p != nil
+//@   requires @api_groups forall(i, 0, len(p.Syscalls), p.Syscalls[i].arch == nil)
+//@   modifies p
+//@   ghost assume A0 == ev_nr(ev) at entry
+//@   let gs = p.Syscalls
+//@   let dflt = p.DefaultAction
+//@   let nr = ev_nr(ev)
+//@   ensures @err {C07} result1 != nil ==> len(result0) == 0
+//@   ensures @frame {C13} p.Syscalls == old(p.Syscalls) && p.DefaultAction == old(p.DefaultAction) && (old(p.arch) != nil ==> p.arch == old(p.arch))
+//@   ensures @decision {C01 C03 C04} result1 == nil && policyListsNonEmpty(gs) && len(result0) < 4294967296 ==> decisionRel(*p.arch, dflt, gs, run(result0, 0, Astart))
+//@   ensures @c07_action {C07} result1 == nil ==> knownAction(dflt) && len(gs) > 0 && p.arch != nil
+//@   ensures @c07_groups {C07} result1 == nil ==> forall(i, 0, len(gs), groupValidF(*p.arch, gs[i]))
+//@   ensures @closed {C05} result1 == nil ==> closed(result0) && len(result0) >= 4
+//@   ghost let ins0 = instructions at loop 1 body
+//@   use listsNonEmptyInst(gs, k) at loop 1 body
+//@   use emptyNoMatch(*p.arch, gs[k]) at loop 1 body
+//@   use emptyValid(*p.arch, gs[k]) at loop 1 body
+//@   use catSubBlocks(instructions, ins0, groupInsts) at loop 1 end
+//@   use catClosed(instructions, ins0, groupInsts) at loop 1 end
+//@   use catRetsAct(instructions, ins0, groupInsts, gs, k, enc(group.Action)) at loop 1 end
+//@   use catRetsActEmpty(ins0, gs, k) at loop 1 end
+//@   use MT3(instructions, 0, ins0, nr) at loop 1 end
+//@   use MT3(instructions, len(ins0), groupInsts, nr) at loop 1 end
+//@   use polRelStep(*p.arch, gs, k, run(ins0, 0, nr), run(instructions, 0, nr)) at loop 1 end
+//@   use polRelNoMatch(*p.arch, gs, k, run(ins0, 0, nr)) at loop 1 end
+//@   use polRelZero(*p.arch, gs) at before loop 1
+//@   ghost let ins1 = instructions at after loop 1
+//@   ghost let prog6 = program at after assign program#6
+//@   ghost let prog7 = program at after assign program#7
+//@   use catSubBlocks(instructions, ins1, end.instructions) at exit
+//@   use catClosed(instructions, ins1, end.instructions) at exit
+//@   use MT3(instructions, 0, ins1, nr) at exit
+//@   use catSubBlocks(program, prog7, instructions) at exit
+//@   use MT3(program, len(prog7), instructions, nr) at exit
+//@   use catClosedPrefix(program, prog7, instructions) at exit
+//@   use polRelFinal(*p.arch, dflt, gs, run(ins1, 0, nr), run(instructions, 0, nr)) at exit
+//@   assert @end_ret result1 == nil ==> len(end.instructions) == 1 && isRetOf(end.instructions[0], enc(dflt)) at exit
+//@   assert @tail_ret result1 == nil ==> len(instructions) == len(ins1) + 1 && isRetOf(instructions[len(ins1)], enc(dflt)) at exit
+//@   assert @tail_run result1 == nil ==> run(instructions, len(ins1), fall_A(run(ins1, 0, nr))) == Ret(enc(dflt)) at exit
+//@   assert @block_run {C01 C03} result1 == nil && policyListsNonEmpty(gs) ==> polDone(*p.arch, dflt, gs, run(instructions, 0, nr)) at exit
+//@   assert @block_at result1 == nil ==> run(program, len(prog7), nr) == thenRun(run(instructions, 0, nr), program, len(program)) at exit
+//@   assert @last_ret {C04} result1 == nil ==> len(program) == len(prog7) + len(instructions) && isRetOf(program[len(program) - 1], enc(dflt)) at exit
+//@   assert @lens result1 == nil ==> len(prog7) == len(prog6) + len(x32Filter) && len(prog6) == ite(jumpN <= 255, 3, 4) && len(x32Filter) == ite(p.arch.ID == 3221225534, 2, 0) && jumpN == len(x32Filter) + len(instructions) at exit
+//@   assert @i0 result1 == nil ==> program[0] == prog6[0] && program[1] == prog6[1] && program[2] == prog6[2] && (jumpN > 255 ==> program[3] == prog6[3]) at exit
+//@   assert @ix result1 == nil && p.arch.ID == 3221225534 ==> program[len(prog6)] == x32Filter[0] && program[len(prog6) + 1] == x32Filter[1] at exit
+//@   assert @s0 result1 == nil ==> run(program, 0, Astart) == run(program, 1, ev_arch(ev)) at exit
+//@   assert @tgt {C04} result1 == nil ==> run(program, len(program) - 1, ev_arch(ev)) == Ret(enc(dflt)) at exit
+//@   assert @j1_short {C04} result1 == nil && jumpN <= 255 ==> istype(program[1], bpf.JumpIf) && unbox(program[1], bpf.JumpIf).Cond == 1 && unbox(program[1], bpf.JumpIf).Val == p.arch.ID && unbox(program[1], bpf.JumpIf).SkipTrue == jumpN && unbox(program[1], bpf.JumpIf).SkipFalse == 0 && 2 + jumpN == len(program) - 1 at exit
+//@   assert @j1_long {C04} result1 == nil && jumpN > 255 ==> istype(program[1], bpf.JumpIf) && unbox(program[1], bpf.JumpIf).Cond == 0 && unbox(program[1], bpf.JumpIf).Val == p.arch.ID && unbox(program[1], bpf.JumpIf).SkipTrue == 1 && unbox(program[1], bpf.JumpIf).SkipFalse == 0 && istype(program[2], bpf.Jump) && (len(program) < 4294967296 ==> w2i(unbox(program[2], bpf.Jump).Skip) == jumpN) && 3 + jumpN == len(program) - 1 at exit
+//@   assert @s2_long {C04} result1 == nil && jumpN > 255 && len(program) < 4294967296 ==> run(program, 2, ev_arch(ev)) == Ret(enc(dflt)) at exit
+//@   assert @s1_short {C04} result1 == nil && jumpN <= 255 ==> run(program, 1, ev_arch(ev)) == ite(ev_arch(ev) != p.arch.ID, Ret(enc(dflt)), run(program, 2, ev_arch(ev))) at exit
+//@   assert @s2_short result1 == nil && jumpN <= 255 ==> run(program, 2, ev_arch(ev)) == run(program, 3, nr) at exit
+//@   assert @s1_long {C04} result1 == nil && jumpN > 255 && len(program) < 4294967296 ==> run(program, 1, ev_arch(ev)) == ite(ev_arch(ev) != p.arch.ID, Ret(enc(dflt)), run(program, 3, ev_arch(ev))) at exit
+//@   assert @s3_long result1 == nil && jumpN > 255 ==> run(program, 3, ev_arch(ev)) == run(program, 4, nr) at exit
+//@   assert @sx {C04} result1 == nil && p.arch.ID == 3221225534 ==> run(program, len(prog6), nr) == ite(nr >= 1073741824, Ret(327718), run(program, len(prog6) + 2, nr)) at exit
+//@   loop 1 binder k
+//@     invariant @own own(instructions) && p.arch != nil
+//@     invariant @closed {C05} closed(instructions)
+//@     invariant @rets {C05} retsActUpTo(instructions, gs, k)
+//@     invariant @sem {C01 C03} policyListsNonEmpty(gs) ==> polRel(*p.arch, gs, k, run(instructions, 0, nr))
+//@     invariant @c07 {C07} forall(i, 0, k, groupValidF(*p.arch, gs[i]))
+
+// a closed block behind an explicit prefix: jumps of the prefix are checked where the prefix is built
+//@ lemma catClosedPrefix(R []bpf.Instruction, P []bpf.Instruction, Q []bpf.Instruction)
+//@   ensures isCat(R, P, Q) && closed(Q) && forall(j, 0, len(P), insnOK(R, j)) ==> closed(R)
